@@ -28,6 +28,7 @@ type confineScn struct {
 	Escapes bool   `json:"escapes"`
 	Recv    string `json:"recv"`
 	Delete  bool   `json:"delete"`
+	Push    bool   `json:"push"`   // the hostile sender also transmits file data for every listed entry WITHOUT being asked (receiver.go accepts any index)
 	Sub     string `json:"sub"`    // daemon: destination argument (after module-name stripping); "" = module root
 	Benign  bool   `json:"benign"` // the list is harmless (sub-argument scenarios)
 	More    []struct {
@@ -246,6 +247,12 @@ func confineHandler(w *workerCtx, line []byte) (any, error) {
 		}
 	}
 	flags := "-rlptgoD"
+	if s.Push {
+		// without -D the generator silently skips special files, so the session stays alive while
+		// the unrequested data for such an entry arrives
+		flags = "-rlptgo"
+		lo.Devices, lo.Specials = false, false
+	}
 	var p *drv.RecvPeer
 	var err error
 	watch, werr := startWatch([]string{box, outside, filepath.Join(outside, "sub"), filepath.Join(outside, "a"), filepath.Join(box, "a")}, nil)
@@ -291,6 +298,16 @@ func confineHandler(w *workerCtx, line []byte) (any, error) {
 		// the receiver cleans names before sorting: number the entries the same way
 		sorted := append([]wirekit.Entry(nil), fl.Entries...)
 		sort.SliceStable(sorted, func(i, j int) bool { return filepath.Clean(sorted[i].Name) < filepath.Clean(sorted[j].Name) })
+		if s.Push {
+			for i, e := range sorted {
+				if e.Name == "." || (s.SendS && e.Name == "s") {
+					continue
+				}
+				pre, seg := serializeAnswer(wirekit.WholeFile(p.Seed, int32(i), payload, 0), 0)
+				p.Out.Bytes(pre)
+				p.Out.Bytes(seg)
+			}
+		}
 		rs := &wirekit.RefSender{In: p.In, Out: p.Out, Seed: p.Seed}
 		rs.Answer = func(req *wirekit.Request) (*wirekit.Answer, error) {
 			obs.Reqs++
